@@ -20,6 +20,8 @@ P = {
    note="Whole-program termination, explicit panic sites in the visitors, the pointer solver and escape transfer functions are outside."),
  "C08": dict(section="3 C08", text="Decides flat-state indexing (uint32 iID*NumValues+vID, full width, cvc5 integer encoding), the join of abstract values, and the whole real NewSummaryGraph+RunIntraProcedural on symbolic value-typed functions (1 instruction x <=3 results quick; 2 chained instructions thorough): every def-use chain from a parameter to a result has an edge.",
    note="Claim holds under NumValues*NumInstructions < 2^32; generated functions use 10 value-typed instruction kinds; Field/FieldAddr/Store/MapUpdate/Send, pointer aliasing, closures, globals and defers simulation are outside."),
+ "C09": dict(section="3 C09", text="Decides the loader lemma for symbolic positions (-2..8) against every arity <=4 params (thorough 6) x <=3 results: a by-position edge of a predefined summary is accepted exactly when both positions exist, is mirrored, and a rejected one leaves the graph unchanged; and checks every entry of the built-in table (extracted from /repo's current source and resolved against the real signatures of this Go installation on every run) through the real loader: a flow listed from an existing argument to an existing class of targets is never dropped.",
+   note="Whether the listed flows cover a function's real behaviour needs symbolic execution of standard-library bodies and is outside; table keys that do not resolve in this Go version are counted and skipped; the table part is finite concrete data, the solver's role there is path uniformity with the lemma."),
  "C10": dict(section="3 C10", text="Decides that PopulateGraphFromSummary applies a symbolic argument-to-result / argument-to-argument matrix exactly as written (edge iff listed, mirrored in/out, flags, nothing else) and that LoadExternalContractSummary gives an interface-method contract precedence over a function contract.",
    note="JSON loading, contract name linking, ShouldBuildSummary and call-form resolution are outside."),
  "C14": dict(section="3 C14", text="Decides the graph invariant locality rests on: after every sequence of <=3 API operations on <=3 nodes (symbolic statuses) a pointee's status is at least its pointer's, status >= intrinsic, and derefsAreLocal answers nil exactly when every pointee is Local.",
